@@ -92,6 +92,13 @@ BinDocRoundTrip == /\ Same(DenotesBin(BinDoc(ToWire(val, DT)), DT), val)
 BinFraming == /\ LET r == PBin(WireBytes \o <<93, 7>>, 1) IN r.ok /\ r.i = Len(WireBytes) + 1
               /\ ParseBin(WireBytes \o <<33>>) = Err
               /\ \A k \in 0..(Len(WireBytes) - 1) : ParseBin(Sub(WireBytes, 1, k)) = Err
+\* a value embedded in a larger buffer (after a prefix, followed by another document and trailing bytes) is read from
+\* where it starts and the reader ends exactly behind it
+BinEmbedded == \A pre \in {<<7>>, <<1, 2, 3, 4>>, [k \in 1..16 |-> 91]} :
+                  LET buf == pre \o WireBytes \o WireBytes \o <<93, 7>>
+                      r1 == PBin(buf, Len(pre) + 1) IN
+                  /\ r1.ok /\ r1.i = Len(pre) + Len(WireBytes) + 1 /\ Same(Canon(FromWire(r1.v, DT)), val)
+                  /\ LET r2 == PBin(buf, r1.i) IN r2.ok /\ r2.i = Len(pre) + 2 * Len(WireBytes) + 1 /\ Same(Canon(FromWire(r2.v, DT)), val)
 NotRoundTrip == Same(DenotesNot(Not(val, RT), RT), val)
 NotAltRoundTrip == Same(DenotesNot(NotAlt(val, RT), RT), val)
 NotNoNewline == NoRawNewline(Not(val, RT))
